@@ -11,6 +11,10 @@ ROLAND_NAMES = ["Pno", "Pno L", "Pno R", "Pno -L", "Pno -R", "Pno  L", "pno l", 
                 "x" * 16, "con", "a:b", "'q'", "a\x01b", "Pno L (2)", "Pno R R"]
 
 
+CDDA_TITLES = ["Song", "Song L", "Song R", "Song -L", "Song -R", "song l", "L", " R", "../x", "a/b", "a\\b", "a b", "..", ".", "", "-x", "#1", "Song (2)", "Song.", "Song L.",
+               "x" * 40, "con", "a:b", "'q'", "a\x01b", "Song  L", "Song   R", None]          # None: no TITLE line at all
+
+
 def words(n, seed):
     return b"".join(struct.pack("<h", ((i * 7 + seed * 1000) % 60000) - 30000) for i in range(n))
 
@@ -18,21 +22,39 @@ def words(n, seed):
 NW = 40            # words per sample
 
 
-def build(fmt, names):
+def build(fmt, names, patch_name="Patch0"):
     """-> (image bytes, directory path of the samples for ls, export directory prefix)"""
+    if fmt == 2:
+        return build_cdda(names), "", "out/"
     if fmt == 0:
         from vf import akaiw
         files = [(nm, 0xf3, akaiw.sample_file(nm, words(NW, i + 1), root=36 + i), None) for i, nm in enumerate(names)]
         return akaiw.partition([("VOL", files, None)], size_sectors=8 + len(names)), "A:/VOL", "out/A/VOL/"
     from vf import rolandw
     partials = [("Part%d" % j, list(range(4 * j, min(4 * j + 4, len(names))))) for j in range((len(names) + 3) // 4)]
-    model = {"volumes": [("VolA", [0])], "performances": [("Perf0", [0])], "patches": [("Patch0", list(range(len(partials))))], "partials": partials,
+    model = {"volumes": [("VolA", [0])], "performances": [("Perf0", [0])], "patches": [(patch_name, list(range(len(partials))))], "partials": partials,
              "samples": [dict(name=nm, words=words(NW, i + 1), key=36 + i, mode=2, sustain_end=NW - 1, release_end=NW - 1) for i, nm in enumerate(names)]}
     return rolandw.build(model), "VolA/Perf0", "out/VolA/Perf0/"
 
 
+def build_cdda(titles):
+    """-> (bin bytes, cue lines); track i is i + 1 sectors long (so that `ls` tells the tracks apart) and holds words(…, seed i + 1)"""
+    bin_ = b"".join(words(1176 * (i + 1), i + 1) for i in range(len(titles)))
+    cue = ['FILE "d.bin" BINARY\n']
+    for i, t in enumerate(titles):
+        cue.append("  TRACK %02d AUDIO\n" % (i + 1))
+        if t is not None:
+            cue.append('    TITLE "%s"\n' % t)
+        cue.append("    INDEX 01 00:00:%02d\n" % (i * (i + 1) // 2))
+    return bin_, cue
+
+
 def open_image(img):
     import smpl_extract.actions as actions
+    if isinstance(img, tuple):
+        from smpl_extract.cuesheet import parse_cue_sheet
+        from smpl_extract.cdda.image import CompactDiskAudioImageAdapter
+        return CompactDiskAudioImageAdapter.from_bin_cue(io.BytesIO(img[0]), parse_cue_sheet(list(img[1])))
     return actions.determine_image_type(io.BufferedReader(io.BytesIO(img)))
 
 
@@ -53,6 +75,9 @@ def pcm_of(wav):
 
 def which_samples(fmt, names, ch, data):
     """the (position of the) samples whose audio makes up each channel of an exported file; None if a channel is nobody's audio"""
+    if fmt == 2:                                   # a CDDA track is one stereo stream: the whole data chunk is one track's sector
+        hit = [i for i in range(len(names)) if data == words(1176 * (i + 1), i + 1)]
+        return [hit[0] if hit else None] * ch if ch == 2 else [None] * ch
     out = []
     for c in range(ch):
         chan = b"".join(data[i:i + 2] for i in range(2 * c, len(data), 2 * ch))
@@ -99,6 +124,11 @@ def listing_names(text):
 
 def item_of_info(fmt, text, n):
     """which sample an `ls <item>` info block describes: by its original key (36 + position); None if it is no sample info"""
+    if fmt == 2:
+        m = re.search(r"^num_audio_samples\s*:\s*(\d+)", text, re.M)
+        if m and int(m.group(1)) % 588 == 0 and 1 <= int(m.group(1)) // 588 <= n:
+            return int(m.group(1)) // 588 - 1
+        return None
     m = re.search(r"^(?:original_key|midi_root_note|root_note|original_pitch|note_pitch)\s*:\s*(\S+)", text, re.M)
     if not m:
         return None
